@@ -588,3 +588,66 @@ func DecodeAll(s *Schema, b []byte, count int64) ([]Datum, error) {
 	}
 	return out, nil
 }
+
+// DatumDiff returns the path of the first difference between two datums of
+// schema s and the (at most two) innermost schema constructors leading to it.
+func DatumDiff(s *Schema, a, b Datum) (path, locus string) {
+	a, b = a.Canon(), b.Canon()
+	var chain []string
+	var walk func(s *Schema, a, b Datum, p string) string
+	walk = func(s *Schema, a, b Datum, p string) string {
+		chain = append(chain, s.Type)
+		if a.K != b.K {
+			return fmt.Sprintf("%s: kind %d vs %d", p, a.K, b.K)
+		}
+		switch s.Type {
+		case "record":
+			for i, f := range s.Fields {
+				if i >= len(a.L) || i >= len(b.L) {
+					return p + ": field count"
+				}
+				if !a.L[i].eq(b.L[i]) {
+					return walk(f.Type, a.L[i], b.L[i], p+"."+f.Name)
+				}
+			}
+		case "array":
+			if len(a.L) != len(b.L) {
+				return fmt.Sprintf("%s: array length %d vs %d", p, len(a.L), len(b.L))
+			}
+			for i := range a.L {
+				if !a.L[i].eq(b.L[i]) {
+					return walk(s.Items, a.L[i], b.L[i], fmt.Sprintf("%s[%d]", p, i))
+				}
+			}
+		case "map":
+			if len(a.L) != len(b.L) {
+				return fmt.Sprintf("%s: map length %d vs %d", p, len(a.L), len(b.L))
+			}
+			for i := range a.L {
+				if a.Keys[i] != b.Keys[i] {
+					return fmt.Sprintf("%s: key %q vs %q", p, a.Keys[i], b.Keys[i])
+				}
+				if !a.L[i].eq(b.L[i]) {
+					return walk(s.Values, a.L[i], b.L[i], fmt.Sprintf("%s[%q]", p, a.Keys[i]))
+				}
+			}
+		case "union":
+			if a.I != b.I {
+				return fmt.Sprintf("%s: union branch %d vs %d", p, a.I, b.I)
+			}
+			return walk(s.Branches[a.I], a.L[0], b.L[0], p)
+		}
+		return fmt.Sprintf("%s: %s vs %s", p, a.String(), b.String())
+	}
+	if a.eq(b) {
+		return "", ""
+	}
+	path = walk(s, a, b, "$")
+	if len(chain) > 0 && chain[0] == "record" {
+		chain = chain[1:]
+	}
+	if len(chain) > 2 {
+		chain = chain[len(chain)-2:]
+	}
+	return path, strings.Join(chain, ">")
+}
